@@ -1,6 +1,7 @@
 from enum import Enum, auto
 
 from bardolph.controller.units import UnitMode
+from bardolph.lib.symbol import SymbolType
 from bardolph.parser.code_gen import CodeGen
 from bardolph.parser.sub_parser import SubParser
 from bardolph.parser.token import TokenTypes
@@ -190,13 +191,26 @@ class LoopParser(SubParser):
         if not self.current_token.is_a(TokenTypes.NAME):
             return self.token_error('Expected name for lights, got "{}"')
         self._light_var = str(self.current_token)
+        if not self._assignable(context_stack):
+            return False
         context_stack.add_variable(self._light_var)
         return self.next_token()
+
+    def _assignable(self, context_stack) -> bool:
+        # At the top level a loop's variable is a global, and naming it like
+        # a macro would be an assignment to that constant.
+        if (not context_stack.in_routine() and
+                context_stack.has_symbol_typed(
+                    str(self.current_token), SymbolType.MACRO)):
+            return self.token_error('Attempt to assign to constant "{}"')
+        return True
 
     def _init_index_var(self, context_stack) -> bool:
         if not self.current_token.is_a(TokenTypes.NAME):
             return self.token_error('Not a variable name: "{}"')
         self._index_var = str(self.current_token)
+        if not self._assignable(context_stack):
+            return False
         context_stack.add_variable(self._index_var)
         return self.next_token()
 
